@@ -41,6 +41,13 @@ type Case struct {
 	// NearLimit d > 0: the even messages are sized so that the frame announces exactly 4 MiB - d bytes
 	// (legal: the receiver rejects more than 4 MiB), the odd ones are tiny
 	NearLimit int `json:"nearLimit,omitempty"`
+	// BadEvery k > 0: every k-th Tell (i % k == k-1) is a message the receiving side cannot decode (its registered
+	// reader returns an error): it cannot be delivered, everything around it must be
+	BadEvery int `json:"badEvery,omitempty"`
+}
+
+func (c Case) bad(i int) bool {
+	return c.BadEvery > 0 && i%c.BadEvery == c.BadEvery-1 && !(c.AskEvery > 0 && i%c.AskEvery == 0)
 }
 
 const frameLimit = 4 << 20
@@ -117,6 +124,9 @@ func genCase(t *rapid.T) Case {
 		c.N = 4096 // millions of tiny writes only make the case slow
 	}
 	c.Reverse = rapid.IntRange(0, 3).Draw(t, "reverse") == 0
+	if rapid.IntRange(0, 2).Draw(t, "withBad") == 0 && c.Burst >= 2 {
+		c.BadEvery = rapid.SampledFrom([]int{2, 3, 1, 7}).Draw(t, "badEvery")
+	}
 	switch rapid.IntRange(0, 9).Draw(t, "shape") {
 	case 0: // concurrent first contact
 		c = genRace(t)
@@ -197,6 +207,8 @@ func run(c Case) (v *verdict, inconclusive string, nontrivial bool, labels []str
 					amu.Lock()
 					asks = append(asks, askRec{s, int64(i), f})
 					amu.Unlock()
+				} else if c.bad(i) {
+					A.Sys.Tell(target, &rlab.Msg{Sender: s, Seq: int64(i), Kind: rlab.KBad, Body: body})
 				} else {
 					A.Sys.Tell(target, &rlab.Msg{Sender: s, Seq: int64(i), Kind: rlab.KData, Body: body})
 				}
@@ -249,7 +261,7 @@ func run(c Case) (v *verdict, inconclusive string, nontrivial bool, labels []str
 		return nil, fmt.Sprintf("no fence message arrived within the budget and the receiver reported neither a decode failure nor a closed connection (case %s)", c.JSON()), false, nil
 	}
 	// ---- oracle
-	check := func(got []rlab.Rec, senders []int32, burst int, size func(int32, int64) int, wantAddr string, dir string) *verdict {
+	check := func(got []rlab.Rec, senders []int32, burst int, size func(int32, int64) int, wantAddr string, dir string, bad func(int) bool) *verdict {
 		per := map[int32][]rlab.Rec{}
 		for _, r := range got {
 			if r.Kind == rlab.KData || r.Kind == rlab.KAsk {
@@ -277,14 +289,22 @@ func run(c Case) (v *verdict, inconclusive string, nontrivial bool, labels []str
 					return &verdict{"C11/sender-ref", fmt.Sprintf("%s: the receiver saw sender address %q, the sending system is %q", dir, r.SenderAddr, wantAddr)}
 				}
 			}
-			if len(rs) != burst {
+			deliverable := 0
+			for i := 0; i < burst; i++ {
+				if !bad(i) {
+					deliverable++
+				} else if seen[int64(i)] > 0 {
+					return &verdict{"C11/intact", fmt.Sprintf("%s: message %d of sender %d, which the receiving side's reader rejects, was delivered all the same; case %s", dir, i, s, c.JSON())}
+				}
+			}
+			if len(rs) != deliverable {
 				var missing []int64
 				for i := int64(0); i < int64(burst) && len(missing) < 10; i++ {
-					if seen[i] == 0 {
+					if seen[i] == 0 && !bad(int(i)) {
 						missing = append(missing, i)
 					}
 				}
-				return &verdict{"C11/exactly-once|lost", fmt.Sprintf("%s: sender %d sent %d messages over a healthy link, the receiver got %d (first missing: %v); proxy: %d writes, %d multi-frame, %d split; receiver events: %+v; case %s", dir, s, burst, len(rs), missing, proxy.Writes.Load(), proxy.WritesMultiFrame.Load(), proxy.WritesSplitFrame.Load(), evB, c.JSON())}
+				return &verdict{"C11/exactly-once|lost", fmt.Sprintf("%s: sender %d sent %d deliverable messages over a healthy link, the receiver got %d (first missing: %v); proxy: %d writes, %d multi-frame, %d split; receiver events: %+v; case %s", dir, s, deliverable, len(rs), missing, proxy.Writes.Load(), proxy.WritesMultiFrame.Load(), proxy.WritesSplitFrame.Load(), evB, c.JSON())}
 			}
 		}
 		return nil
@@ -293,11 +313,11 @@ func run(c Case) (v *verdict, inconclusive string, nontrivial bool, labels []str
 	for s := 0; s < c.Senders; s++ {
 		ss = append(ss, int32(s))
 	}
-	if v = check(B.Sink.Got(), ss, c.Burst, func(s int32, i int64) int { return c.bodySize(s, i, near) }, A.Addr, "A->B"); v != nil {
+	if v = check(B.Sink.Got(), ss, c.Burst, func(s int32, i int64) int { return c.bodySize(s, i, near) }, A.Addr, "A->B", c.bad); v != nil {
 		return
 	}
 	if c.Reverse {
-		if v = check(A.Sink.Got(), []int32{100}, c.Burst, func(int32, int64) int { return c.Size % 5000 }, B.Addr, "B->A"); v != nil {
+		if v = check(A.Sink.Got(), []int32{100}, c.Burst, func(int32, int64) int { return c.Size % 5000 }, B.Addr, "B->A", func(int) bool { return false }); v != nil {
 			return
 		}
 	}
@@ -322,7 +342,7 @@ func run(c Case) (v *verdict, inconclusive string, nontrivial bool, labels []str
 	if c.IdleMs > 0 && (evB.ConnClosed > 0 || evB.Established > 1) {
 		return &verdict{"C11/connection-stays-up", fmt.Sprintf("an idle healthy connection was closed and re-established by the library itself after %d ms (closed events %d, established %d)", c.IdleMs, evB.ConnClosed, evB.Established)}, "", false, nil
 	}
-	if evB.DecodeFail > 0 {
+	if evB.DecodeFail > 0 && c.BadEvery == 0 {
 		return &verdict{"C11/decode-failure", fmt.Sprintf("the receiver published %d RemotingMessageDecodeFailedEvent on a healthy link; case %s", evB.DecodeFail, c.JSON())}, "", false, nil
 	}
 	nontrivial = proxy.WritesMultiFrame.Load() > 0 || proxy.WritesSplitFrame.Load() > 0
@@ -344,6 +364,9 @@ func run(c Case) (v *verdict, inconclusive string, nontrivial bool, labels []str
 	}
 	if c.AskEvery > 0 {
 		labels = append(labels, "with-asks")
+	}
+	if c.BadEvery > 0 {
+		labels = append(labels, "with-undecodable-messages")
 	}
 	if c.Reverse {
 		labels = append(labels, "both-directions")
